@@ -60,14 +60,14 @@ func BaseConf() *xconf.EnvConf {
 
 // NodeOpts are the genesis-level options of a generated node.
 type NodeOpts struct {
-	Window       int64  // irreversibleslidewindow
-	NoFee        bool   // genesis nofee
-	Award        int64  // block award
-	Quota        int64  // predistribution per ring address
-	PredistN     int    // number of ring addresses funded at genesis
-	MaxBlockSize int    // MB
-	NewAccGas    int64  // new_account_resource_amount
-	NoLog        bool   // do not keep a write log (replicas)
+	Window       int64 // irreversibleslidewindow
+	NoFee        bool  // genesis nofee
+	Award        int64 // block award
+	Quota        int64 // predistribution per ring address
+	PredistN     int   // number of ring addresses funded at genesis
+	MaxBlockSize int   // MB
+	NewAccGas    int64 // new_account_resource_amount
+	NoLog        bool  // do not keep a write log (replicas)
 	GasPrice     [4]int64
 }
 
